@@ -1619,6 +1619,11 @@ func (ctx Ctx) sliceRangeStmt(s *ast.RangeStmt) coq.Expr {
 }
 
 func (ctx Ctx) rangeStmt(s *ast.RangeStmt) coq.Expr {
+	if s.Tok == token.ASSIGN {
+		// the loop binders are fresh names in GooseLang
+		ctx.unsupported(s, "range that assigns to existing variables (use := in the range clause)")
+		return nil
+	}
 	switch ctx.typeOf(s.X).Underlying().(type) {
 	case *types.Map:
 		return ctx.mapRangeStmt(s)
